@@ -15,7 +15,7 @@ Inductive c03case :=
 | CXattr (is_list : bool) (cs : N) (value : list N) (drop : nat) (walk_err : option errv) (fid : N) (name : string)
          (calls : list ocall) (returned : bool) (got : list N) (err : option N) (conn : bool)
 (* WalkGetAttr at version v *)
-| CWga (v : N) (names : list string) (fid : N) (getattr_fails : bool) (calls : list ocall) (err : option N).
+| CWga (v : N) (names : list string) (fid : N) (getattr_fails : bool) (calls : list ocall) (err : option N) (ret ans : list val).
 
 Fixpoint all2 {A B} (f : A -> B -> bool) (a : list A) (b : list B) : bool :=
   match a, b with
@@ -72,7 +72,7 @@ Definition agrees (c : c03case) : bool :=
       | XErr (CErrno n) => negb conn && match err with Some k => N.eqb k n | None => false end
       | XErr _ => conn
       end
-  | CWga v names fid gfails calls err =>
+  | CWga v names fid gfails calls err _ _ =>
       let e := mkenv (fun _ => VL names) fid 0 (fun _ => 0%N) 8192 in
       let fails := gfails && negb (pred_holds v "versionSupportsTwalkgetattr") in
       all2 call_matches (walkgetattr_calls v e fails) calls &&
@@ -116,7 +116,9 @@ Definition property_holds (c : c03case) : bool :=
                 else String.eqb (oc_m c1) "GetXattr" && all2 val_eqb (oc_args c1) [VS name]
       | _ => false
       end
-  | CWga v names fid gfails calls err =>
+  | CWga v names fid gfails calls err ret ans =>
+      (* the caller gets the QIDs of the components and the attributes (mask and values) the backend answered *)
+      all2 val_eqb ret ans &&
       (* the walk is performed (one call per component, or one for a clone) and the attributes are fetched in full *)
       match calls with
       | [] => false
